@@ -97,6 +97,12 @@ func (vm *VirtualMachine) applyOptions(options []Option) error {
 		return fmt.Errorf("vm is already running")
 	}
 
+	// The options write the tables that Clone copies. A clone can be made
+	// at any time, also between two runs: by a server or another goroutine
+	// that an earlier run started, or by the host.
+	vm.cloneMutex.Lock()
+	defer vm.cloneMutex.Unlock()
+
 	// Remember the globals as they are: if the new ones are rejected, the VM
 	// keeps the ones it had, instead of failing every later invocation on
 	// the value that one invocation tried to supply
@@ -288,6 +294,11 @@ func (vm *VirtualMachine) clearStack() {
 
 // resetForNewCode resets the VM state for running a new code object
 func (vm *VirtualMachine) resetForNewCode() {
+	// The tables of loaded code and modules are replaced below, and Clone
+	// ranges over them (see applyOptions)
+	vm.cloneMutex.Lock()
+	defer vm.cloneMutex.Unlock()
+
 	vm.sp = -1
 	vm.ip = 0
 	vm.fp = 0
@@ -1114,7 +1125,9 @@ func (vm *VirtualMachine) reloadCode(main *compiler.Code) *code {
 	if !ok {
 		panic("main code not loaded")
 	}
+	vm.cloneMutex.Lock()
 	delete(vm.loadedCode, main)
+	vm.cloneMutex.Unlock()
 	newWrappedMain := vm.loadCode(main)
 	copy(newWrappedMain.Globals, oldWrappedMain.Globals)
 	// Functions that were loaded by earlier runs share the globals array of
